@@ -54,12 +54,25 @@ type ck struct {
 	key []byte
 }
 
-func run(c *core.Case) {
+// Runner returns the case runner; id prefixes the violation signatures so that
+// C08 can reuse the engine with a GC-heavy action mix (gcHeavy).
+func Runner(id string, gcHeavy bool) func(c *core.Case) {
+	return func(c *core.Case) { run(c, id, gcHeavy) }
+}
+
+func run(c *core.Case, id string, gcHeavy bool) {
 	rng := c.Rng
 	cfg := dbx.RandomConfig(rng)
+	if gcHeavy {
+		cfg.ValueThreshold = 32
+		cfg.VlogFileSize = 16 << 10
+		cfg.Controlled = true
+		cfg.MemTableSize = 1 << 20
+		cfg.L0Tables = 1000
+	}
 	env, err := dbx.NewEnv(cfg, c.TempDir(), c.Count)
 	if err != nil {
-		c.Violation("C01|open-failed|fresh", err.Error(), cfg)
+		c.Violation(id+"|open-failed|fresh", err.Error(), cfg)
 		return
 	}
 	defer env.Close()
@@ -230,7 +243,7 @@ func run(c *core.Case) {
 					} else if !errors.Is(gerr, utils.ErrKeyNotFound) {
 						first = "error " + gerr.Error()
 					}
-					c.Violation("C01|transient-wrong-read|natural-background-compaction", fmt.Sprintf("Get(%q) after %s returned %s, the same read after background work settled returned the last written value", k.key, after, first),
+					c.Violation(id+"|transient-wrong-read|natural-background-compaction", fmt.Sprintf("Get(%q) after %s returned %s, the same read after background work settled returned the last written value", k.key, after, first),
 						map[string]any{"config": cfg, "after": after, "key": fmt.Sprintf("%q", k.key), "first_read": first, "layout_after": dbx.LayoutShape(db), "sources_after": describe(env, db.VerifKeySources(k.cf, k.key)), "trace": env.Trace})
 					return false
 				}
@@ -243,10 +256,10 @@ func run(c *core.Case) {
 			detail := map[string]any{"config": cfg, "after": after, "cf": k.cf.String(), "key": fmt.Sprintf("%q", k.key), "sources": describe(env, src), "layout": dbx.LayoutShape(db), "expected_op": m.op, "trace": env.Trace}
 			if gerr != nil && !errors.Is(gerr, utils.ErrKeyNotFound) {
 				if t := tainted[mk(k.cf, k.key)]; t != "" {
-					c.Violation("C01|older-write-wins-or-lost|tainted:"+t, fmt.Sprintf("Get(%q) returned error %q after %s (an older duplicate with a dangling value pointer won the tie)", k.key, gerr, after), detail)
+					c.Violation(id+"|older-write-wins-or-lost|tainted:"+t, fmt.Sprintf("Get(%q) returned error %q after %s (an older duplicate with a dangling value pointer won the tie)", k.key, gerr, after), detail)
 					return false
 				}
-				c.Violation("C01|read-error|sources="+ss+"|"+ctx, fmt.Sprintf("Get(%q) returned error %q after %s", k.key, gerr, after), detail)
+				c.Violation(id+"|read-error|sources="+ss+"|"+ctx, fmt.Sprintf("Get(%q) returned error %q after %s", k.key, gerr, after), detail)
 				return false
 			}
 			// which op did the read return?
@@ -292,12 +305,12 @@ func run(c *core.Case) {
 				rule = "lost"
 			}
 			detail["winner_source"], detail["latest_write_held_by"] = winner, holder
-			sig := fmt.Sprintf("C01|%s|%s-beats-%s", rule, winnerC, holderC)
+			sig := fmt.Sprintf(id+"|%s|%s-beats-%s", rule, winnerC, holderC)
 			if t := tainted[mk(k.cf, k.key)]; t != "" && (rule == "older-write-wins" || rule == "lost") {
-				sig = "C01|older-write-wins-or-lost|tainted:" + t
+				sig = id+"|older-write-wins-or-lost|tainted:" + t
 			}
 			if ctx != "" {
-				sig = "C01|wrong-read|" + ctx
+				sig = id+"|wrong-read|" + ctx
 			}
 			c.Violation(sig, fmt.Sprintf("Get(%q) after %s returned %s but the last write (op %d) was %s", k.key, after, gotDesc, m.op, wantDesc(m)), detail)
 			return false
@@ -326,7 +339,7 @@ func run(c *core.Case) {
 				rec.Result = werr.Error()
 				env.Trace = append(env.Trace, rec)
 				if !errors.Is(werr, utils.ErrTxnTooBig) && !errors.Is(werr, utils.ErrHotKeyWriteThrottle) {
-					c.Violation("C01|write-error", fmt.Sprintf("Set failed: %v", werr), map[string]any{"config": cfg, "trace": env.Trace})
+					c.Violation(id+"|write-error", fmt.Sprintf("Set failed: %v", werr), map[string]any{"config": cfg, "trace": env.Trace})
 					return
 				}
 				continue
@@ -355,7 +368,7 @@ func run(c *core.Case) {
 			if werr != nil {
 				rec.Result = werr.Error()
 				env.Trace = append(env.Trace, rec)
-				c.Violation("C01|write-error", fmt.Sprintf("Del failed: %v", werr), map[string]any{"config": cfg, "trace": env.Trace})
+				c.Violation(id+"|write-error", fmt.Sprintf("Del failed: %v", werr), map[string]any{"config": cfg, "trace": env.Trace})
 				return
 			}
 			m := model[mk(k.cf, k.key)]
@@ -366,6 +379,9 @@ func run(c *core.Case) {
 			c.Count("deletes", 1)
 		default:
 			action := dbx.Actions[rng.Intn(len(dbx.Actions))]
+			if gcHeavy && rng.Intn(2) == 0 {
+				action = []string{"gc", "gc-public", "rotate-wait"}[rng.Intn(3)]
+			}
 			if !cfg.Controlled && action != "rotate-wait" && action != "reopen" {
 				// natural mode: background compaction only; value-log GC re-inserts
 				// live entries at their old version and would create the same-version
@@ -382,7 +398,7 @@ func run(c *core.Case) {
 			res := env.Action(action)
 			if res.Err != nil {
 				if env.DB == nil {
-					c.Violation("C01|reopen-failed", res.Err.Error(), map[string]any{"config": cfg, "trace": env.Trace})
+					c.Violation(id+"|reopen-failed", res.Err.Error(), map[string]any{"config": cfg, "trace": env.Trace})
 					return
 				}
 				// A maintenance call that reports an error is not by itself a
@@ -473,7 +489,7 @@ func init() {
 			}
 			return 160
 		},
-		Run: run,
+		Run: Runner("C01", false),
 		Finish: func(a *core.Agg) {
 			a.FloorNontrivial(40)
 			for _, k := range []string{"action.rotate-wait", "action.compact:l0", "action.compact:ingest-drain", "action.compact:ingest-merge", "action.gc", "action.reopen"} {
